@@ -254,7 +254,7 @@ def robust_gcv_candidates(y, valid, llas, p=None, solver=banded_solve, max_candi
                 trH = (wt / (wt + s * e ** 2)).sum()
                 score = np.sum(wt * (yy - z) ** 2) / (wt.sum() * (1 - trH / wt.sum()) ** 2)
                 if score < best[0]:
-                    if best[0] < 1e15:
+                    if np.isfinite(best[0]):
                         margin = min(margin, abs(best[0] - score) / max(abs(score), 1e-300))
                     best = (score, s)
                     ybest = z
@@ -270,6 +270,12 @@ def robust_gcv_candidates(y, valid, llas, p=None, solver=banded_solve, max_candi
         sel = valid & (rw != 0)
         mad = np.median(np.abs(r[sel] - np.median(r[sel]))) if sel.any() else 0.0
         newrw = None
+        scale = max(1.0, float(np.max(np.abs(yy[valid])))) if valid.any() else 1.0
+        if 0 < mad <= 1e-6 * scale:
+            # a MAD at rounding-noise level: whether an implementation treats it as zero is not the property's business,
+            # and weights derived from it are decided by noise -> the case is fragile (counted, not judged)
+            margin = 0.0
+            mad = 0.0
         if mad > 0 and 1 - trH / n > 0:
             u = r / (1.4826 * mad * np.sqrt(1 - trH / n))
             margin = min(margin, float(np.min(np.abs(np.abs(u[valid] / 4.685) - 1))))
@@ -288,7 +294,7 @@ def robust_gcv_candidates(y, valid, llas, p=None, solver=banded_solve, max_candi
             if not np.array_equal(rw, np.ones(m)):
                 rec(it + 1, np.ones(m), best, ybest, hist + [best], margin, problems + [it])
 
-    rec(0, np.ones(m), (1e15, 0.0), None, [], np.inf, [])
+    rec(0, np.ones(m), (np.inf, 0.0), None, [], np.inf, [])
     return out
 
 
@@ -396,6 +402,16 @@ def gamma_s(pos):
     return math.log(math.fsum(pos) / n) - math.fsum(math.log(v) for v in pos) / n
 
 
+def gamma_alpha_rel_tol(pos, s):
+    """Relative accuracy to which any float64 implementation can know alpha: alpha ~ 1/(2s) for small s, and
+    s = log(mean) - mean(log) is a difference of O(1) numbers whose naive n-term accumulation carries an error of about
+    n*u*(|log mean| + mean|log x|)."""
+    pos = np.asarray(pos, dtype=np.float64)
+    n = pos.size
+    mag = abs(math.log(float(pos.mean()))) + float(np.mean(np.abs(np.log(pos)))) + 1.0
+    return 1e-9 + 8.0 * n * U * mag / s
+
+
 def gamma_alpha(s):
     """Root of log(a) - digamma(a) = s on a bracket independent of Thom's estimate."""
     from scipy.optimize import brentq
@@ -441,14 +457,15 @@ def spi_reference(x, valid_mask, window, alpha_beta=None):
     else:
         alpha, beta = alpha_beta
         s = None
+    atol = gamma_alpha_rel_tol(pos, s) if s else 1e-9
     idx = np.full(x.size, np.nan)
     with np.errstate(all="ignore"):
         prob = p0 + (1 - p0) * gammainc(alpha, x[usable] / beta)
         idx[usable] = 1000.0 * ndtri(prob)
-    return {"fittable": True, "index": idx, "alpha": alpha, "beta": beta, "p0": p0, "s": s, "usable": usable}
+    return {"fittable": True, "index": idx, "alpha": alpha, "beta": beta, "p0": p0, "s": s, "usable": usable, "alpha_rel_tol": atol}
 
 
-def spi_tie_width(idx, alpha):
+def spi_tie_width(idx, alpha, alpha_rel_tol=None):
     """Half-width around x.5 inside which either rounding is accepted (per cell)."""
     from scipy.stats import norm
 
@@ -456,4 +473,5 @@ def spi_tie_width(idx, alpha):
     with np.errstate(all="ignore"):
         phi = norm.pdf(z)
         amp = 1000.0 * 200 * U / np.maximum(phi, 1e-300)
-    return 1e-3 + amp + np.abs(idx) * (1e-9 + 8e-15 * alpha)
+    rel = (1e-9 + 8e-15 * alpha) if alpha_rel_tol is None else alpha_rel_tol
+    return 1e-3 + amp + np.abs(idx) * rel
